@@ -6,8 +6,9 @@ StatusFew == {200, 401, -1}
 StatusAll == {200, 401, 403, 404, -1}
 Cfg2(a, b) == [h \in {"h1", "h2"} |-> IF h = "h1" THEN a ELSE b]
 
-\* quick: three two-host configurations covering all six credential kinds
-CfgQuick == {Cfg2("refresh", "basic"), Cfg2("both", "static"), Cfg2("none", "cfgerr")}
+\* quick: two two-host configurations (refresh+password / static token; refresh only / failing lookup)
+CfgQuick == {Cfg2("both", "static"), Cfg2("refresh", "cfgerr")}
+CfgMid == {Cfg2("refresh", "basic"), Cfg2("both", "static"), Cfg2("none", "cfgerr")}
 \* thorough: every pairing that matters for confinement (distinct credentials on the two hosts)
 CfgThorough == {Cfg2(a, b) : a \in {"refresh", "both"}, b \in {"basic", "static", "none", "cfgerr", "refresh"}}
                  \cup {Cfg2("basic", "static"), Cfg2("basic", "basic"), Cfg2("static", "none")}
